@@ -3,6 +3,7 @@ package c20
 import (
 	"fmt"
 	"hash/fnv"
+	"os"
 	"path/filepath"
 	"runtime"
 	"strings"
@@ -275,7 +276,13 @@ func excluded(c Case) string {
 
 // ---------------------------------------------------------------- oracle 1: restart after every operation
 
-func runRestart(c Case) *h.Result {
+func runRestart(c Case) *h.Result { return runRestartMode(c, false) }
+
+// runRestartLong: the same oracle; a case counts as non-trivial when a restart had to load a history or stash file
+// larger than the 4096 byte buffer the files are read through.
+func runRestartLong(c Case) *h.Result { return runRestartMode(c, true) }
+
+func runRestartMode(c Case, long bool) *h.Result {
 	res := &h.Result{}
 	if tag := excluded(c); tag != "" {
 		res.Skip = tag
@@ -300,8 +307,21 @@ func runRestart(c Case) *h.Result {
 		if r.compacted {
 			kinds["compaction"] = true
 		}
-		if r.m.Compactions > 0 {
+		if !long && r.m.Compactions > 0 {
 			res.NonTrivial = true // restarts after at least one compaction
+		}
+		if long {
+			for _, fn := range []string{histFile, stashFile} {
+				if fi, e := os.Stat(filepath.Join(dir, fn)); e == nil && fi.Size() > 4096 {
+					res.NonTrivial = true
+					if !kinds["big-"+fn] {
+						kinds["big-"+fn] = true
+					}
+					if fi.Size() > 8192 {
+						kinds["two-buffers-"+fn] = true
+					}
+				}
+			}
 		}
 	}
 	for k := range kinds {
@@ -593,6 +613,64 @@ func genStashForm(rt *rapid.T, ctl bool) []string {
 		f[i] = line + genBlank(rt, "trail")
 	}
 	return f
+}
+
+// genLongOps: histories and stashes that outgrow the 4096 byte buffer their files are read through: many forms,
+// long lines (now and then one line longer than the whole buffer), non-ASCII text so that a character can straddle the
+// end of a buffer, a limit high enough that nothing is cut back before the file is large, and lower limits so that a
+// compaction rewrites a large file.
+func genLongOps(rt *rapid.T) Case {
+	c := Case{Limit: rapid.SampledFrom([]int{1000, 1000, 200, 60, 40}).Draw(rt, "limit")}
+	n := rapid.IntRange(20, 90).Draw(rt, "nops")
+	longLine := func(stash bool) string {
+		var b strings.Builder
+		want := rapid.SampledFrom([]int{20, 60, 60, 100, 100, 150, 300, 700, 2000, 4090, 4100, 5000}).Draw(rt, "width")
+		for b.Len() < want {
+			if b.Len() > 0 {
+				b.WriteByte(' ')
+			}
+			if stash {
+				b.WriteString(rapid.SampledFrom(atoms).Draw(rt, "atom"))
+			} else {
+				b.WriteString(rapid.SampledFrom(pieces).Draw(rt, "piece"))
+			}
+			if want > 600 {
+				// filler that keeps the number of draws low
+				b.WriteString(strings.Repeat(rapid.SampledFrom([]string{" abcdefghi", " λéñ日本語ß", " (x y)"}).Draw(rt, "fill"), want/40))
+			}
+		}
+		return b.String()
+	}
+	for i := 0; i < n; i++ {
+		w := rapid.IntRange(0, 99).Draw(rt, "kind")
+		switch {
+		case w < 62:
+			nl := rapid.SampledFrom([]int{1, 1, 2, 3}).Draw(rt, "nlines")
+			f := make([]string, nl)
+			for j := range f {
+				f[j] = longLine(false)
+			}
+			c.Ops = append(c.Ops, Op{K: "add", F: f})
+		case w < 88:
+			nl := rapid.SampledFrom([]int{1, 2, 3}).Draw(rt, "nlines")
+			f := make([]string, nl)
+			for j := range f {
+				f[j] = longLine(true)
+			}
+			f[0] = "(" + f[0]
+			f[nl-1] += ")"
+			c.Ops = append(c.Ops, Op{K: "sadd", F: f})
+		case w < 91:
+			c.Ops = append(c.Ops, Op{K: "clear", A: rapid.IntRange(-1, 12).Draw(rt, "start"), B: rapid.IntRange(-1, 12).Draw(rt, "end"), P: rapid.Bool().Draw(rt, "viastash")})
+		case w < 94:
+			c.Ops = append(c.Ops, Op{K: "sclear", A: rapid.IntRange(-1, 5).Draw(rt, "start"), B: rapid.IntRange(-1, 5).Draw(rt, "end")})
+		case w < 96:
+			c.Ops = append(c.Ops, Op{K: "limit", A: rapid.SampledFrom([]int{10, 30, 50, 1000}).Draw(rt, "newlimit")})
+		default:
+			c.Ops = append(c.Ops, Op{K: "restart"})
+		}
+	}
+	return c
 }
 
 var limits = []int{0, 1, 2, 3, 3, 4, 5, 5, 6, 7, 8, 9, 10, 10, 11, 12, 12, 20, 25, 1000}
